@@ -144,6 +144,19 @@ class ExecMixin:
 
     def make_exc(self, st, cls, args) -> ExcVal:
         o = HeapObj("obj", cls, {"args": PyTuple(args)})
+        if cls in ("UnexpectedCharacters", "UnexpectedEOF", "UnexpectedInput", "UnexpectedToken"):
+            # lark.exceptions.UnexpectedInput carries a position (line/column; -1 for an unexpected end of input)
+            o.fields["line"] = zint(st.fresh("exc_line", Int))
+            o.fields["column"] = zint(st.fresh("exc_column", Int))
+            o.fields["char"] = Opaque("exc.char")
+            o.fields["considered_rules"] = Opaque("exc.considered_rules")
+        if cls == "VisitError":
+            o.fields["orig_exc"] = Opaque("exc.orig_exc")
+            o.fields["rule"] = Opaque("exc.rule")
+        if cls == "ResultAttemptError":
+            o.fields["error"] = st.alloc(self._mk_obj(st, "Err", {"_value": Opaque("attempted.error")}))
+        if cls == "FileNotFoundError":
+            o.fields["filename"] = Opaque("exc.filename")
         ref = st.alloc(o)
         return ExcVal(cls, args, ref)
 
@@ -278,6 +291,8 @@ class ExecMixin:
             if i is not None:
                 return i
             return None
+        if isinstance(k, Opaque):
+            return "opaque:" + k.tag
         if isinstance(k, PyTuple):
             ks = [self.dict_key(st, x) for x in k.items]
             return None if any(x is None for x in ks) else tuple(ks)
